@@ -268,7 +268,12 @@ def c08_outputs(shape: int, spell: int, lets: bool, ov: bool, n1: int, n2: int, 
     attributed to the visited subcircuit (flat numbering); per-subcircuit readouts and relative
     frequencies count exactly its own readouts.  ov: the let counts are overridden... (not available to
     parse_jaqal_output_list, so ov only changes the declared values)."""
-    sx, visits, nsub = visit_program(shape, spell, n1, n2, n3, lets)
+    if ov and lets:
+        # declared counts are n1,n2,n3 rotated; the override dictionary restores n1,n2,n3
+        sx, _, nsub = visit_program(shape, spell, n2, n3, n1, lets)
+        _, visits, _ = visit_program(shape, spell, n1, n2, n3, lets)
+    else:
+        sx, visits, nsub = visit_program(shape, spell, n1, n2, n3, lets)
     outs = [o0, o1, o2]
     data = [outs[k % 3] for k in range(len(visits))]
     # some outputs as strings
@@ -276,6 +281,8 @@ def c08_outputs(shape: int, spell: int, lets: bool, ov: bool, n1: int, n2: int, 
     refuel()
     try:
         c = build(sx, inject_pulses=NATIVE)
+        if ov and lets:
+            c = fill_in_let(c, override_dict={"n1": n1, "n2": n2, "n3": n3})
         res = parse_jaqal_output_list(c, given)
     except JaqalError as ex:
         return f"valid program rejected: {ex} :: {sx}"
@@ -447,8 +454,14 @@ def par_program(shape, size, i, j, k, l, perm):
     elif shape == 4:
         body = [par(["sequential_block", ["loop", 2, ["sequential_block", ["gate", "g1", R0(i)]]], ["gate", "n0"]], ["gate", "g1", R0(j)]),
                 ["loop", 2, par(["gate", "g1", R0(k)], ["gate", "g1", A(l)])]]
-    else:
+    elif shape == 5:
         body = [par(["gate", "g1", R0(i)], par(["gate", "g1", R0(j)], ["gate", "g1", R0(k)])), par(["sequential_block", par(["gate", "g1", R0(l)])], ["gate", "g1", R0(i)])]
+    else:
+        # nested macros whose parameter names coincide across levels
+        head = head + [["macro", "on", "p", ["sequential_block", ["gate", "g1", "p"]]],
+                       ["macro", "second", "p", "q", ["sequential_block", ["gate", "on", "q"]]],
+                       ["macro", "third", "q", "p", par(["gate", "second", "q", "p"], ["gate", "n0"])]]
+        body = [par(["gate", "second", R0(i), R0(j)], ["gate", "g1", R0(k)]), ["gate", "third", R0(l), R0(i)]]
     return head + [P] + body + [M]
 
 
@@ -519,7 +532,12 @@ def c13_parallel(shape: int, size: int, i: int, j: int, k: int, l: int) -> str:
     for n, (st, rt) in enumerate(zip(c.body.statements, tree[1])):
         v = UsedQubitIndicesVisitor()
         v.all_qubits = {"r": set(range(size))}
-        g = v.visit(st, context=None)
+        try:
+            g = v.visit(st, context=None)
+        except RecursionError:
+            return f"used-qubit analysis of statement {n} does not terminate (RecursionError) :: {sx}"
+        except JaqalError as ex:
+            return f"used-qubit analysis of statement {n} raises {ex} :: {sx}"
         gs = {(nm, q) for nm, s in g.items() for q in s}
         ws = R.used(rt, allq)
         if gs != ws:
@@ -642,3 +660,67 @@ def _has_repeated_qubit(t):
 def _raw_tree_ov(sx, over):
     env, body = R.ref_env(sx, over)
     return ("seq", [R._ref_stmt(env, {}, s) for s in body])
+
+
+def state_template(tname: str, mask: int, o0: int, **leaves) -> str:
+    """Any template program, bracketed for execution over the native gate set: the emulated state of every
+    subcircuit equals the reference product over the reference meaning (aliases resolved, lets/overrides
+    applied, macros expanded, loops unrolled); the used-qubit analysis of the unexpanded circuit agrees."""
+    from .passes import _overrides
+    sx = wrap_for_emulator(program(tname, leaves))
+    ov = _overrides(sx, mask, o0, o0)
+    ref, why = try_ref(sx, ov)
+    size = None
+    try:
+        c = build(sx, inject_pulses=NATIVE)
+        c1 = fill_in_let(c, override_dict=ov) if ov else c
+        res = run_jaqal_circuit(c1)
+    except JaqalError as ex:
+        if ref is None:
+            return "~rejected"
+        if concretely(_has_repeated_qubit, ref):
+            return "~rejected (repeated qubit argument)"
+        if ov and try_ref(sx, {})[0] is None:
+            return "~rejected (invalid with the declared values)"
+        n = concretely(_register_size, sx, ov)
+        if concretely(_par_collision, concretely(_raw_tree_ov, sx, ov), [("r", q) for q in range(n)]):
+            return "~rejected (overlapping parallel branches)"
+        return f"valid program rejected: {ex} :: {sx} {ov}"
+    except Exception as ex:
+        return f"non-JaqalError escaped: {exc(ex)} :: {sx} {ov}"
+    if ref is None:
+        return f"program with an invalid reference executed ({why}) :: {sx} {ov}"
+    n = concretely(_register_size, sx, ov)
+    secs = concretely(_simple_sections, expand_sub_tree(ref))
+    if secs is None:
+        return "~sections straddle a loop"
+    if len(res.subcircuits) != len(secs):
+        return f"{len(res.subcircuits)} subcircuits, expected {len(secs)} :: {sx} {ov}"
+    for num, (sc, gates) in enumerate(zip(res.subcircuits, secs)):
+        want = concretely(ref_state, gates, n)
+        got = [complex(v) for v in sc.state_vector]
+        if len(got) != len(want):
+            return f"state vector of length {len(got)}, expected {len(want)} :: {sx} {ov}"
+        for a, b in zip(got, want):
+            if abs(a - b) > 1e-9:
+                return f"subcircuit {num}: emulated state differs from the reference product :: {sx} {ov}"
+    # used-qubit analysis on the circuit as written (macros not expanded)
+    try:
+        uq = get_used_qubit_indices(c1)
+    except JaqalError as ex:
+        return f"used-qubit analysis rejects a valid program: {ex} :: {sx}"
+    except RecursionError:
+        return f"used-qubit analysis does not terminate (RecursionError) :: {sx}"
+    except Exception as ex:
+        return f"non-JaqalError escaped from get_used_qubit_indices: {exc(ex)} :: {sx}"
+    regname = next(st[1] for st in sx[1:] if st[0] == "register")
+    want_u = R.used(ref, [(regname, q) for q in range(n)])
+    got_u = {(nm, q) for nm, s_ in uq.items() for q in s_}
+    if got_u != want_u:
+        return f"used qubits of the unexpanded circuit {sorted(got_u)} != {sorted(want_u)} :: {sx} {ov}"
+    return ""
+
+
+def _register_size(sx, ov):
+    env, _ = R.ref_env(sx, ov)
+    return list(env.fundamental.values())[0]
